@@ -237,6 +237,10 @@ def run(tier: str, seed: int) -> core.Report:
     if res.error or res.invariant_violated:
         raise core.MachineryError(f"Tf.tla: {res.invariant_violated or res.error}\n{res.out[-1500:]}")
     rep.add_tlc(res, "MC_Tf (<= 2 tasks): the design satisfies the C09 monitor and WaitsForTasks; terminal (program, schedule) pairs exported")
+    live = tlc.run("MC_Tf", "MC_Tf_live", workers=4, heap="4g", timeout=1200, check=False)
+    if live.error or live.property_violated:
+        raise core.MachineryError(f"Tf.tla liveness: {live.error or 'Ends violated'}")
+    rep.add_tlc(live, "MC_Tf_live: every run ends with the owning block left (weak fairness)")
     pairs = list(res.printed())
     total = len(pairs)
     rnd = random.Random(seed)
